@@ -126,27 +126,55 @@ def go_rows(ctx, pkg, run, env, name):
 
 
 # --------------------------------------------------------------------------- the parts
+def run_parallel(fs):
+    """Run thunks concurrently; re-raise the first failure (Inconclusive last)."""
+    errs = []
+
+    def guard(f):
+        def g():
+            try:
+                f()
+            except BaseException as e:  # re-raised in the calling thread
+                errs.append(e)
+        return g
+    ts = [threading.Thread(target=guard(f)) for f in fs]
+    for t in ts:
+        t.start()
+    for t in ts:
+        t.join()
+    for e in errs:
+        if not isinstance(e, vlib.Inconclusive):
+            raise e
+    if errs:
+        raise errs[0]
+
+
 def part_generate(ctx, res):
     """TLC: enumerate tables, check the statement's invariants, emit vectors."""
-    groups = []
-    workers = 5
+    groups = {}
     if ctx.quick:
-        g = ctx.tlc("Rewrites", "Rewrites.quick.cfg", workers=workers, timeout=900)
-        groups.append(("quick", g))
+        groups["quick"] = ctx.tlc("Rewrites", "Rewrites.quick.cfg", workers=5, timeout=900, heap="4g")
+        order = ["quick"]
     else:
-        g = ctx.tlc("Rewrites", "Rewrites.full.cfg", workers=workers, timeout=1500)
-        groups.append(("full", g))
-        g = ctx.tlc("Rewrites", "Rewrites.three.cfg", workers=workers, timeout=2400)
-        groups.append(("three", g))
-        # Order-independence of the specification (the harness replays every
-        # ordering of an entry-built table against one verdict table).
-        ctx.tlc("Rewrites", "Rewrites.perm2.cfg", workers=workers, timeout=1500)
-        shard = 1 + random.Random(ctx.seed).randrange(7)
-        ctx.tlc("Rewrites", subst_cfg(ctx, "Rewrites.perm.cfg", "perm_shard.cfg", Shard=shard), workers=workers, timeout=1500)
-        res["perm_shard"] = shard
+        def gen(name, cfg):
+            def f():
+                groups[name] = ctx.tlc("Rewrites", cfg, workers=4, timeout=2400, heap="4g")
+            return f
+
+        def perms():
+            # Order-independence of the specification (the harness replays every
+            # ordering of an entry-built table against one verdict table).
+            ctx.tlc("Rewrites", "Rewrites.perm2.cfg", workers=2, timeout=1500, heap="3g")
+            shard = 1 + random.Random(ctx.seed).randrange(7)
+            ctx.tlc("Rewrites", subst_cfg(ctx, "Rewrites.perm.cfg", "perm_shard.cfg", Shard=shard), workers=2,
+                    timeout=1500, heap="3g")
+            res["perm_shard"] = shard
+        run_parallel([gen("full", "Rewrites.full.cfg"), gen("three", "Rewrites.three.cfg"), perms])
+        order = ["full", "three"]
     sets = []
     witnessed, clauses = set(), []
-    for name, g in groups:
+    for name in order:
+        g = groups[name]
         hdr, vs = split_vectors(g["vectors"])
         if not vs:
             raise vlib.Inconclusive("no vectors from %s" % name)
@@ -164,7 +192,7 @@ def part_generate(ctx, res):
 def part_live(ctx, res):
     """TLC: termination (liveness, variant) on the step machine; action coverage."""
     cfg = "Rewrites.live.cfg" if ctx.quick else "Rewrites.live2.cfg"
-    r = ctx.tlc("Rewrites", cfg, workers=3, timeout=1800, coverage=True)
+    r = ctx.tlc("Rewrites", cfg, workers=3, timeout=1800, coverage=True, heap="4g")
     acts = dict((m[0], int(m[1])) for m in re.findall(r"^<(\w+) line \d+, col \d+ to line \d+, col \d+ of module Rewrites>: (\d+):\d+", r["out"], re.M))
     need = ["AddEntry", "PickShape", "PickFamily", "PickQuery", "ChaseStep"]
     dead = [a for a in need if acts.get(a, 0) == 0]
@@ -264,7 +292,8 @@ def part_trace(ctx, res, tally):
     rows = frows + prows
     tpath = ctx.path("c06_trace.ndjson")
     vlib.write_ndjson(tpath, [{"lvl": r["lvl"], "tab": r["tab"], "qs": r["qs"]} for r in rows])
-    r = ctx.tlc("TraceRewrites", "TraceRewrites.cfg", workers=1, timeout=1500, extra_files=[(tpath, "trace.ndjson")])
+    r = ctx.tlc("TraceRewrites", "TraceRewrites.cfg", workers=1, timeout=1500, heap="3g",
+                extra_files=[(tpath, "trace.ndjson")])
     if not r["vectors"]:
         raise vlib.Inconclusive("trace spec produced no verdict")
     verdict = r["vectors"][-1]
@@ -311,33 +340,12 @@ def part_trace(ctx, res, tally):
 def run(ctx):
     res = {}
     tally = Tally()
-    errs = []
-
-    def guard(f, *a):
-        def g():
-            try:
-                f(*a)
-            except BaseException as e:  # re-raised in the main thread
-                errs.append(e)
-        return g
-
     # Independent strands run concurrently: (generate -> replay), termination, traces.
     def strand_a():
         part_generate(ctx, res)
         part_replay(ctx, res, tally)
 
-    threads = [threading.Thread(target=guard(strand_a)),
-               threading.Thread(target=guard(part_live, ctx, res)),
-               threading.Thread(target=guard(part_trace, ctx, res, tally))]
-    for t in threads:
-        t.start()
-    for t in threads:
-        t.join()
-    for e in errs:
-        if not isinstance(e, vlib.Inconclusive):
-            raise e
-    if errs:
-        raise errs[0]
+    run_parallel([strand_a, lambda: part_live(ctx, res), lambda: part_trace(ctx, res, tally)])
 
     # Vacuity of the pipeline sample (only meaningful when nothing is reported:
     # a disagreement can be the very reason a class was not observed).
